@@ -1,0 +1,9 @@
+//go:build !verif
+
+package mimetype
+
+// Verification hooks are compiled out unless the "verif" build tag is set.
+
+func verifAt(point string, m, c *MIME, n int, limit uint32, ok bool) {}
+func verifLeaf(m *MIME, ps map[string]string)                        {}
+func verifWrapNode(c *MIME)                                          {}
